@@ -1,19 +1,19 @@
-\* generated by mkaggcfg.py - edge cover
+\* generated by mkaggcfg.py - first repair attempt of F4 (retry count 0): TLC must find the history-key collision that loses a certificate
 CONSTANTS
   MaxBlocks = 3
   MaxBridges = 1
-  MaxCerts = 3
+  MaxCerts = 4
   MaxSteps = 40
   RetryImm = TRUE
   MaxCertBlocks = 0
-  CallFailures = FALSE
+  CallFailures = TRUE
   Crashes = {"before_submit", "after_submit", "after_store"}
   StoreFaults = FALSE
   LoseDB = TRUE
   HeaderHasPrev = TRUE
-  FixedF4 = "v2"
+  FixedF4 = "v1"
 INIT Init
 NEXT Next
 VIEW view
-ACTION_CONSTRAINT Dump
+INVARIANT C02
 CHECK_DEADLOCK FALSE
